@@ -63,7 +63,7 @@ let show_state (x : receiver) : string =
         stok x.x_queue; stok x.x_ted_clock; stok x.x_until_ted; stok x.x_force_eom ])
 
 (* resetshape <11 constant tokens> <initial_gain> <alpha> <beta> <training tokens, comma list or -> <60 state fields> *)
-let handle (toks_ : string list) : string =
+let handle_c18 (toks_ : string list) : string =
   match toks_ with
   | "resetshape" :: rest ->
     let a = Array.of_list rest in
@@ -81,4 +81,62 @@ let handle (toks_ : string list) : string =
                 initial_gain alphabeta (config_of x) in
       show_state r ^ " | " ^ show_state f
     end
+  | _ -> "DRIVER-ERROR unknown command:" ^ String.concat " " toks_
+
+(* ---------------- C17: builder calls and construction over an order-isomorphic image of f32 ---------------- *)
+let z_of_int (i : int) : z =
+  if i = 0 then Z0 else if i > 0 then Zpos (pos_of_int i) else Zneg (pos_of_int (- i))
+let int_of_z (x : z) : int =
+  match x with Z0 -> 0 | Zpos p -> int_of_pos p | Zneg p -> - (int_of_pos p)
+let rec nat_of_int (i : int) : nat = if i = 0 then O else S (nat_of_int (i - 1))
+let int_of_nat (x : nat) : int = let rec go acc = function O -> acc | S k -> go (acc + 1) k in go 0 x
+
+let key_of_bits (s : string) : int =
+  let b = int_of_string (if String.length s > 2 && String.sub s 0 2 = "0x" then s else "0x" ^ s) in
+  if b land 0x80000000 <> 0 then - (b land 0x7fffffff) else b
+let kz s = z_of_int (key_of_bits s)
+let f0 = z_of_int 0 and f1 = z_of_int 0x3f800000 and fhalf = z_of_int 0x3f000000 and fmaxv = z_of_int 0x7f7fffff
+(* documented defaults: 0.38 0.01 1e6 0.125 0.05 0.01 0.10 0.05 0.125 ; equalizer 0.05 1e-6 *)
+let dflt = List.map kz ["3ec28f5c"; "3c23d70a"; "49742400"; "3e000000"; "3d4ccccd"; "3c23d70a"; "3dcccccd"; "3d4ccccd"; "3e000000"; "3d4ccccd"; "358637bd"]
+
+let parse_call (c : string) : z call =
+  let a = Array.of_list (String.split_on_char ':' c) in
+  let optf s = if s = "-" then None else Some (kz s) in
+  match a.(0) with
+  | "dc" -> CDc (kz a.(1)) | "agc" -> CAgcBw (kz a.(1)) | "gain" -> CGain (kz a.(1), kz a.(2))
+  | "tbw" -> CTimingBw (kz a.(1), kz a.(2)) | "dev" -> CMaxDev (kz a.(1))
+  | "sqp" -> CSquelchPower (kz a.(1), kz a.(2)) | "sqbw" -> CSquelchBw (kz a.(1))
+  | "pre" -> CPre (n_of_int (int_of_string a.(1))) | "pfx" -> CPfx (n_of_int (int_of_string a.(1)))
+  | "inv" -> CInv (n_of_int (int_of_string a.(1)))
+  | "noeq" -> CNoEq
+  | "eq" ->
+    let order = if a.(1) = "-" then None else Some (nat_of_int (int_of_string a.(1)), nat_of_int (int_of_string a.(2))) in
+    CEq (order, optf a.(3), optf a.(4))
+  | _ -> failwith "bad call"
+
+let handle_c17 (toks_ : string list) : string =
+  match toks_ with
+  | [ "cfgcalls"; rate; calls; ntaps; dcraw ] ->
+    let d k = List.nth dflt k in
+    let b0 = builder_new f0 (d 0) (d 1) (d 2) (d 3) (d 4) (d 5) (d 6) (d 7) (d 8) (d 9) (d 10) (n_of_int (int_of_string rate)) in
+    let cs = List.filter (fun c -> c <> "" && c <> "-") (String.split_on_char ';' calls) in
+    (match apply_calls Z.leb f0 f1 fhalf fmaxv (d 9) (d 10) b0 (List.map parse_call cs) with
+     | Panic site -> "panic " ^ string_of_int (int_of_n site)
+     | Done b ->
+       let eqs = match b.b_eq with
+         | Some e -> Printf.sprintf "%d:%d:%d:%d" (int_of_nat e.e_nff) (int_of_nat e.e_nfb) (int_of_z e.e_relax) (int_of_z e.e_regul)
+         | None -> "none" in
+       let getters = Printf.sprintf "%d %d %d %d %d %d %d %d %d %d %d %s %d %d"
+           (int_of_z b.b_dc) (int_of_z b.b_agc_bw) (int_of_z b.b_gmin) (int_of_z b.b_gmax) (int_of_z b.b_tbu) (int_of_z b.b_tbl)
+           (int_of_z b.b_maxdev) (int_of_z b.b_sqo) (int_of_z b.b_sqc) (int_of_z b.b_sqbw) (int_of_n b.b_pre) eqs
+           (int_of_n b.b_pfx) (int_of_n b.b_inv) in
+       (match build Z.leb f0 f1 fhalf (d 9) (d 10) b (nat_of_int (int_of_string ntaps)) (nat_of_int (int_of_string dcraw)) f0 with
+        | Panic site -> "panic " ^ string_of_int (int_of_n site)
+        | Done l -> Printf.sprintf "ok %s lens=%d,%d,%d,%d" getters (int_of_nat l.l_dc) (int_of_nat l.l_demod) (int_of_nat l.l_ff) (int_of_nat l.l_fb)))
+  | _ -> "DRIVER-ERROR unknown command"
+
+let handle (toks_ : string list) : string =
+  match toks_ with
+  | "resetshape" :: _ -> handle_c18 toks_
+  | "cfgcalls" :: _ -> handle_c17 toks_
   | _ -> "DRIVER-ERROR unknown command"
